@@ -1,5 +1,379 @@
-//! Harness binary for property C06 (line protocol; see /verif/vlib/BUILDER_GUIDE.md).
+//! Harness for property C06 (static errors are always rejected). Line protocols, all executed
+//! in-process on the real crates:
+//!   tok <hex text>                 real TokenProducer (hook H6): yielded tokens + literal errors
+//!   lit <hex text>                 real expression parser: error count + literal skeleton
+//!   asg <ty> <ty>                  type_system::assignability_check / type_meet / is_the_same_type
+//!   slv <tps> <concrete> <generic> type_system::solve_type_constraints
+//!   prog <json>                    parser + type_check_sources (errors per module) + compile_sources
+use samlang_ast::source::{Literal, expr};
+use samlang_ast::{Location, Reason};
+use samlang_checker::type_::{
+  FunctionType, ISourceType, NominalType, PrimitiveTypeKind, Type, TypeParameterSignature,
+};
+use samlang_checker::verif_hooks_c06 as hooks;
+use samlang_errors::{ErrorDetail, ErrorSet};
+use samlang_heap::{Heap, ModuleReference, PStr};
+use samverif_harness::util::*;
+use std::collections::HashMap;
+use std::panic::{AssertUnwindSafe, catch_unwind};
+use std::sync::Arc;
+
+// ---------------------------------------------------------------- types <-> protocol strings
+
+struct P<'a> {
+  s: &'a [u8],
+  i: usize,
+}
+
+impl<'a> P<'a> {
+  fn num(&mut self) -> Option<u32> {
+    let st = self.i;
+    while self.i < self.s.len() && self.s[self.i].is_ascii_digit() {
+      self.i += 1;
+    }
+    std::str::from_utf8(&self.s[st..self.i]).ok()?.parse().ok()
+  }
+  fn eat(&mut self, c: u8) -> Option<()> {
+    if self.i < self.s.len() && self.s[self.i] == c {
+      self.i += 1;
+      Some(())
+    } else {
+      None
+    }
+  }
+  fn list(&mut self, heap: &mut Heap) -> Option<Vec<Arc<Type>>> {
+    self.eat(b'(')?;
+    let mut v = Vec::new();
+    while self.i < self.s.len() && self.s[self.i] != b')' {
+      v.push(Arc::new(self.ty(heap)?));
+    }
+    self.eat(b')')?;
+    Some(v)
+  }
+  fn ty(&mut self, heap: &mut Heap) -> Option<Type> {
+    let c = *self.s.get(self.i)?;
+    self.i += 1;
+    let r = Reason::new(Location::dummy(), None);
+    match c {
+      b'a' => {
+        let p = self.num()?;
+        Some(Type::Any(r, p == 1))
+      }
+      b'u' => Some(Type::Primitive(r, PrimitiveTypeKind::Unit)),
+      b'b' => Some(Type::Primitive(r, PrimitiveTypeKind::Bool)),
+      b'i' => Some(Type::Primitive(r, PrimitiveTypeKind::Int)),
+      b'g' => {
+        let n = self.num()?;
+        self.eat(b';')?;
+        Some(Type::Generic(r, heap.alloc_string(format!("T{n}"))))
+      }
+      b'n' => {
+        let s = self.num()?;
+        self.eat(b',')?;
+        let m = self.num()?;
+        self.eat(b',')?;
+        let id = self.num()?;
+        let targs = self.list(heap)?;
+        Some(Type::Nominal(NominalType {
+          reason: r,
+          is_class_statics: s == 1,
+          module_reference: heap.alloc_module_reference_from_string_vec(vec![format!("M{m}")]),
+          id: heap.alloc_string(format!("C{id}")),
+          type_arguments: targs,
+        }))
+      }
+      b'f' => {
+        let args = self.list(heap)?;
+        let ret = self.ty(heap)?;
+        Some(Type::Fn(FunctionType { reason: r, argument_types: args, return_type: Arc::new(ret) }))
+      }
+      _ => None,
+    }
+  }
+}
+
+fn parse_ty(s: &str, heap: &mut Heap) -> Option<Type> {
+  let mut p = P { s: s.as_bytes(), i: 0 };
+  let t = p.ty(heap)?;
+  if p.i == s.len() { Some(t) } else { None }
+}
+
+fn show_ty(t: &Type, heap: &Heap, out: &mut String) {
+  match t {
+    Type::Any(_, p) => out.push_str(if *p { "a1" } else { "a0" }),
+    Type::Primitive(_, PrimitiveTypeKind::Unit) => out.push('u'),
+    Type::Primitive(_, PrimitiveTypeKind::Bool) => out.push('b'),
+    Type::Primitive(_, PrimitiveTypeKind::Int) => out.push('i'),
+    Type::Generic(_, n) => {
+      out.push('g');
+      out.push_str(&n.as_str(heap)[1..]);
+      out.push(';');
+    }
+    Type::Nominal(n) => {
+      out.push('n');
+      out.push(if n.is_class_statics { '1' } else { '0' });
+      out.push(',');
+      out.push_str(&n.module_reference.pretty_print(heap)[1..]);
+      out.push(',');
+      out.push_str(&n.id.as_str(heap)[1..]);
+      out.push('(');
+      for a in &n.type_arguments {
+        show_ty(a, heap, out);
+      }
+      out.push(')');
+    }
+    Type::Fn(f) => {
+      out.push_str("f(");
+      for a in &f.argument_types {
+        show_ty(a, heap, out);
+      }
+      out.push(')');
+      show_ty(&f.return_type, heap, out);
+    }
+  }
+}
+
+fn ty_str(t: &Type, heap: &Heap) -> String {
+  let mut s = String::new();
+  show_ty(t, heap, &mut s);
+  s
+}
+
+// ---------------------------------------------------------------- literal skeleton of an expression
+
+fn skel(e: &expr::E<()>, out: &mut String) {
+  match e {
+    expr::E::Literal(_, Literal::Int(i)) => out.push_str(&format!("(lit {i})")),
+    expr::E::Literal(_, _) => out.push_str("(lit ?)"),
+    expr::E::Unary(u) => {
+      out.push_str(match u.operator {
+        expr::UnaryOperator::NEG => "(neg ",
+        expr::UnaryOperator::NOT => "(not ",
+      });
+      skel(&u.argument, out);
+      out.push(')');
+    }
+    expr::E::Binary(b) => {
+      out.push_str(&format!("(bin {} ", b.operator.kind_str()));
+      skel(&b.e1, out);
+      out.push(' ');
+      skel(&b.e2, out);
+      out.push(')');
+    }
+    expr::E::Tuple(_, l) => {
+      out.push_str("(tuple");
+      for x in &l.expressions {
+        out.push(' ');
+        skel(x, out);
+      }
+      out.push(')');
+    }
+    expr::E::Call(c) => {
+      out.push_str("(call ");
+      skel(&c.callee, out);
+      for x in &c.arguments.expressions {
+        out.push(' ');
+        skel(x, out);
+      }
+      out.push(')');
+    }
+    _ => out.push('?'),
+  }
+}
+
+fn loc_str(l: &Location) -> String {
+  format!("{}:{}-{}:{}", l.start.0, l.start.1, l.end.0, l.end.1)
+}
+
+fn detail_kind(d: &ErrorDetail) -> String {
+  let s = format!("{d:?}");
+  s.chars().take_while(|c| c.is_ascii_alphanumeric()).collect()
+}
+
+// ---------------------------------------------------------------- whole programs
+
+fn run_prog(line: &str) -> String {
+  let v: serde_json::Value = match serde_json::from_str(line) {
+    Ok(v) => v,
+    Err(e) => return format!("{{\"bad\":\"{e}\"}}"),
+  };
+  let with_std = v["std"].as_bool().unwrap_or(true);
+  let entry = v["entry"].as_str().unwrap_or("Main").to_string();
+  let mut srcs: Vec<(String, String)> = v["sources"]
+    .as_object()
+    .map(|o| o.iter().map(|(k, t)| (k.clone(), t.as_str().unwrap_or("").to_string())).collect())
+    .unwrap_or_default();
+  srcs.sort();
+  // pass 1: parser + checker, error list with modules
+  let srcs1 = srcs.clone();
+  let check = catch_unwind(AssertUnwindSafe(move || {
+    let heap = &mut Heap::new();
+    let mut error_set = ErrorSet::new();
+    let mut texts: HashMap<ModuleReference, String> = HashMap::new();
+    if with_std {
+      for (m, s) in samlang_parser::builtin_std_raw_sources(heap) {
+        texts.insert(m, s);
+      }
+    }
+    for (name, text) in &srcs1 {
+      let parts: Vec<String> = name.split('.').map(|s| s.to_string()).collect();
+      texts.insert(heap.alloc_module_reference_from_string_vec(parts), text.clone());
+    }
+    let mut parsed = HashMap::new();
+    for (m, t) in &texts {
+      parsed.insert(*m, samlang_parser::parse_source_module_from_text(t, *m, heap, &mut error_set));
+    }
+    let _ = samlang_checker::type_check_sources(&parsed, &mut error_set);
+    let mut errs: Vec<serde_json::Value> = Vec::new();
+    for e in error_set.errors() {
+      errs.push(serde_json::json!({
+        "module": e.location.module_reference.pretty_print(heap),
+        "kind": detail_kind(&e.detail),
+        "syntax": e.is_syntax_error(),
+        "loc": loc_str(&e.location),
+      }));
+    }
+    errs
+  }));
+  // pass 2: the real compile_sources
+  let do_compile = v["compile"].as_bool().unwrap_or(true);
+  let (compile, msg) = if !do_compile {
+    ("skipped".to_string(), String::new())
+  } else {
+    match samverif_harness::exec::compile_program(&srcs, &entry, with_std) {
+      samverif_harness::exec::CompileOutcome::Ok(c) => {
+        ("ok".to_string(), format!("wasm={}B ts={}B", c.wasm.len(), c.ts.len()))
+      }
+      samverif_harness::exec::CompileOutcome::Errors(e) => {
+        ("err".to_string(), e.lines().rev().find(|l| !l.trim().is_empty()).unwrap_or("").to_string())
+      }
+      samverif_harness::exec::CompileOutcome::Panic(m) => ("panic".to_string(), m),
+    }
+  };
+  match check {
+    Ok(errs) => serde_json::json!({"check": "done", "errors": errs, "compile": compile, "msg": msg})
+      .to_string(),
+    Err(e) => serde_json::json!({"check": "panic", "errors": [], "panic": panic_msg(&e),
+      "compile": compile, "msg": msg})
+    .to_string(),
+  }
+}
+
 fn main() {
-  eprintln!("c06: not implemented yet");
-  std::process::exit(2);
+  std::panic::set_hook(Box::new(|_| {}));
+  for_each_line(|line| {
+    let (op, rest) = line.split_once(' ').unwrap_or((line, ""));
+    match op {
+      "tok" => {
+        let text = unhex_str(rest.trim());
+        let r = catch_unwind(AssertUnwindSafe(|| {
+          let heap = &mut Heap::new();
+          let mut es = ErrorSet::new();
+          let toks =
+            samlang_parser::verif_hooks::produce_tokens(&text, ModuleReference::DUMMY, heap, &mut es);
+          let ts: Vec<String> = toks
+            .iter()
+            .map(|(k, t, (l0, c0, l1, c1))| format!("{k}:{}@{l0}:{c0}-{l1}:{c1}", hex(t.as_bytes())))
+            .collect();
+          let mut errs: Vec<String> = es
+            .errors()
+            .iter()
+            .map(|e| {
+              let m = match &e.detail {
+                ErrorDetail::InvalidSyntax(s) if s == "Not a 32-bit integer." => "int".to_string(),
+                ErrorDetail::InvalidSyntax(s) => format!("syntax:{}", hex(s.as_bytes())),
+                d => detail_kind(d),
+              };
+              format!("{m}@{}", loc_str(&e.location))
+            })
+            .collect();
+          errs.sort();
+          format!("T {} E {}", if ts.is_empty() { "-".into() } else { ts.join(",") },
+            if errs.is_empty() { "-".into() } else { errs.join(",") })
+        }));
+        r.unwrap_or_else(|e| format!("panic {}", hex(panic_msg(&e).as_bytes())))
+      }
+      "lit" => {
+        let text = unhex_str(rest.trim());
+        let r = catch_unwind(AssertUnwindSafe(|| {
+          let heap = &mut Heap::new();
+          let mut es = ErrorSet::new();
+          let (_, e) = samlang_parser::parse_source_expression_from_text(
+            &text,
+            ModuleReference::DUMMY,
+            heap,
+            &mut es,
+          );
+          let mut s = String::new();
+          skel(&e, &mut s);
+          let n_int = es
+            .errors()
+            .iter()
+            .filter(|e| matches!(&e.detail, ErrorDetail::InvalidSyntax(s) if s == "Not a 32-bit integer."))
+            .count();
+          format!("errs={} interrs={} {}", es.errors().len(), n_int, s)
+        }));
+        r.unwrap_or_else(|e| format!("panic {}", hex(panic_msg(&e).as_bytes())))
+      }
+      "asg" => {
+        let t: Vec<&str> = rest.split(' ').collect();
+        let heap = &mut Heap::new();
+        let (Some(a), Some(b)) = (
+          t.first().and_then(|s| parse_ty(s, heap)),
+          t.get(1).and_then(|s| parse_ty(s, heap)),
+        ) else {
+          return "bad-type".to_string();
+        };
+        let r = catch_unwind(AssertUnwindSafe(|| {
+          let asg = hooks::assignable(&a, &b);
+          let meet = hooks::type_meet(&a, &b);
+          let same = a.is_the_same_type(&b);
+          format!(
+            "a={} m={} s={} p={}{}",
+            asg as u8,
+            meet.map(|t| ty_str(&t, heap)).unwrap_or("none".to_string()),
+            same as u8,
+            hooks::contains_placeholder(&a) as u8,
+            hooks::contains_placeholder(&b) as u8
+          )
+        }));
+        r.unwrap_or_else(|e| format!("panic {}", hex(panic_msg(&e).as_bytes())))
+      }
+      "slv" => {
+        let t: Vec<&str> = rest.split(' ').collect();
+        if t.len() != 3 {
+          return "bad-op".to_string();
+        }
+        let heap = &mut Heap::new();
+        let tps: Vec<TypeParameterSignature> = t[0]
+          .split(',')
+          .filter(|s| !s.is_empty() && *s != "-")
+          .map(|n| TypeParameterSignature { name: heap.alloc_string(format!("T{n}")), bound: None })
+          .collect();
+        let (Some(c), Some(g)) = (parse_ty(t[1], heap), parse_ty(t[2], heap)) else {
+          return "bad-type".to_string();
+        };
+        let r = catch_unwind(AssertUnwindSafe(|| {
+          let (subst, solved, err) = hooks::solve_type_constraints(&c, &g, &tps);
+          let mut kv: Vec<(u32, String)> = subst
+            .iter()
+            .map(|(k, v): (&PStr, &Arc<Type>)| {
+              (k.as_str(heap)[1..].parse::<u32>().unwrap_or(0), ty_str(v, heap))
+            })
+            .collect();
+          kv.sort();
+          let s: Vec<String> = kv.into_iter().map(|(k, v)| format!("{k}:{v}")).collect();
+          format!(
+            "s={} g={} e={}",
+            if s.is_empty() { "-".to_string() } else { s.join(",") },
+            ty_str(&solved, heap),
+            err as u8
+          )
+        }));
+        r.unwrap_or_else(|e| format!("panic {}", hex(panic_msg(&e).as_bytes())))
+      }
+      "prog" => run_prog(rest),
+      other => format!("bad-op {other}"),
+    }
+  });
 }
